@@ -106,6 +106,11 @@ pub enum AppEv {
     BindSeen { side: Side, flow_id: u32, btype: u8, host: Vec<u8>, port: u16, answer: String },
     BindNextErr { side: Side, err: String },
     MuxDropped { side: Side },
+    /// the scripted local side of a bridge returned an error from `op`
+    LocalErr { stream: usize, op: String, kind: String },
+    LocalEof { stream: usize },
+    LocalShutdown { stream: usize, result: String },
+    BridgeDone { stream: usize, result: Result<(usize, usize), String> },
     Note(String),
 }
 
